@@ -54,13 +54,13 @@ TABLE = {
          "everyg with collections of 0-4 terms (Vec and LTerm list), bodies over the loop variable, query variables and a body-local fresh variable on which the body may make its own choice (tree and FD bodies); a second family uses collections of up to 400/1000 elements, a third iterates a collection that is known only at solve time (`for x in &l` below `project |l|`); elements may be lists themselves (nested `for`, domains on element lists). Exploration. The surface `for` form is covered by C14's compile pipeline.",
          REFI),
  "C13": ("property-based testing through a compile pipeline: generated match/matche/matcha/matchu programs are emitted as Rust source, compiled against the current tree in one cargo build, run, and compared with the reference evaluation of the documented expansion and with the dynamic build of the same AST",
-         "700 (quick) / 12000 (thorough) generated pattern-matching programs per run exercise literal, [], `_`, proper/improper list and compound patterns, repeated names, `p1 | p2` alternatives, empty bodies, shadowing pattern variables; answers must equal the reference's as multisets. Exploration.",
+         "1350 (quick) / 12000 (thorough) generated pattern-matching programs per run exercise literal, [], `_`, proper/improper list and compound patterns, repeated names, `p1 | p2` alternatives, empty bodies, shadowing pattern variables; answers must equal the reference's as multisets. Exploration.",
          REFI + " A generated program that fails to compile counts as a generator problem (tolerated up to 2%)."),
  "C14": ("property-based testing through a compile pipeline over the whole clause grammar (fresh, ==, !=, conjunctions in operators, conde/cond, closure, for, relation calls, literals of every kind, nested proper/improper lists, `_`, `{expr}` and lterm! arguments, compound constructors), against the reference interpreter and the dynamic build; results read by field name, Display order checked",
-         "700 / 12000 generated surface programs per run, compiled against the current tree and run. Exploration.",
+         "1350 / 12000 generated surface programs per run, compiled against the current tree and run. Exploration.",
          REFI + " A generated program that fails to compile counts as a generator problem (tolerated up to 2%)."),
  "C15": ("property-based testing through a compile pipeline: each generated program with shadowing / sibling / recursive scopes is emitted twice (shadowing names, alpha-renamed unique names); metamorphic equality of both plus reference interpreter (resolves ids, not names) plus dynamic build",
-         "350 / 6000 generated programs per run (two compiled modules each). Exploration.",
+         "450 / 6000 generated programs per run (two compiled modules each). Exploration.",
          REFI + " A generated program that fails to compile counts as a generator problem (tolerated up to 2%)."),
  "C16": (PBT + " against brute-force enumeration of the domain product (soundness verdict)",
          "Generated CLP(FD) programs with aliasing, signed domains, sparse domains, hidden variables, shuffled posting order, list/compound query terms; every answer must be a brute-force solution. A wide-domains family uses intervals of up to 300/1200 values and sparse domains of up to 150 values, several per variable. Exploration.",
